@@ -27,7 +27,8 @@
 EXTENDS Naturals, Sequences, FiniteSets, TLC
 
 CONSTANTS Acc,          \* account names
-          Members,      \* members of the one group "G" (subset of Acc; empty: no group)
+          Members,      \* initial members of the one group "G" (subset of Acc; empty: no group)
+          MaxJoins,     \* membership changes in a behaviour (model bound)
           MaxMsgs,      \* messages submitted in a behaviour (model bound)
           MaxFaults,    \* server faults in a behaviour (model bound)
           MaxOpen,      \* outstanding control requests per client (model bound)
@@ -37,7 +38,9 @@ CONSTANTS Acc,          \* account names
           ReshowAllowed \* deviation switch: FALSE = claimed (a client never shows a message twice)
 
 VARIABLES nretry,   \* retry receipts written so far (model bound only)
-          msgs,     \* Seq of [s: author, d: destination account or "G"]; the index is the message id
+          members,  \* current members of the group
+          nmem,     \* membership changes so far (model bound only)
+          msgs,     \* Seq of [s: author, d: destination account or "G", r: intended recipients]; the index is the message id
           inq,      \* inq[c]: stanzas c wrote, not yet served
           outq,     \* outq[c]: stanzas queued for c
           emitted,  \* ids whose (first, undirected) message stanza has left its author
@@ -49,16 +52,20 @@ VARIABLES nretry,   \* retry receipts written so far (model bound only)
           open,     \* open[c]: control requests of c not yet answered
           faults,   \* faults injected so far
           hit       \* {<<r, i>>}: deliveries of i to r that were already faulted (one fault per message and recipient)
-vars == <<nretry, msgs, inq, outq, emitted, shown, nshown, pend, asked, seen, open, faults, hit>>
+vars == <<nretry, members, nmem, msgs, inq, outq, emitted, shown, nshown, pend, asked, seen, open, faults, hit>>
 
 Ids == 1..Len(msgs)
-Rcp(i) == IF msgs[i].d = "G" THEN Members \ {msgs[i].s} ELSE {msgs[i].d}
+(* The intended recipients of a message are fixed when it is submitted: the other   *)
+(* members of the group at that moment (membership only changes while nothing is    *)
+(* in flight, so this is also the membership when the server fans it out).          *)
+Rcp(i) == msgs[i].r
+NewMsg(c, d) == [s |-> c, d |-> d, r |-> IF d = "G" THEN members \ {c} ELSE {d}]
 St(k, i, p, f) == [k |-> k, i |-> i, p |-> p, f |-> f]
 None == St("none", 0, "", 0)
 Range(s) == {s[j] : j \in 1..Len(s)}
 Quiescent == \A c \in Acc : inq[c] = <<>> /\ outq[c] = <<>>
 
-Init == /\ nretry = 0 /\ msgs = <<>> /\ inq = [c \in Acc |-> <<>>] /\ outq = [c \in Acc |-> <<>>]
+Init == /\ nretry = 0 /\ members = Members /\ nmem = 0 /\ msgs = <<>> /\ inq = [c \in Acc |-> <<>>] /\ outq = [c \in Acc |-> <<>>]
         /\ emitted = {} /\ shown = {} /\ nshown = [x \in {} |-> 0] /\ pend = [c \in Acc |-> {}]
         /\ asked = {} /\ seen = {} /\ open = [c \in Acc |-> 0] /\ faults = 0 /\ hit = {}
 
@@ -88,7 +95,7 @@ Labels(c, dl, out, ms) ==
   LET S == ShownIds(out)  R == Retried(out)  D == Acked(out) IN
      Lb("shown-twice", ~ReshowAllowed /\ ((\E i \in S : <<c, i>> \in shown) \/ Len(out.shown) # Cardinality(S)))
 \cup Ls("shown-undelivered", {i \in S : i \notin Pool(c, dl) /\ <<c, i>> \notin shown})
-\cup Ls("shown-not-recipient", {i \in S : i \in 1..Len(ms) /\ c \notin (IF ms[i].d = "G" THEN Members \ {ms[i].s} ELSE {ms[i].d})})
+\cup Ls("shown-not-recipient", {i \in S : i \in 1..Len(ms) /\ c \notin ms[i].r})
 \cup Ls("content-altered", {j \in 1..Len(out.shown) : out.shown[j].ok = 0})
 \cup Ls("shown-without-receipt", S \ D)
 \cup Ls("dup-not-reacknowledged", DupHere(c, dl) \ D)
@@ -121,10 +128,10 @@ ClientEffect(c, dl, out) ==
 -----------------------------------------------------------------------------
 (* Environment and server actions.                                                *)
 Submit(c, d, out) ==
-  /\ d # c /\ (d = "G" => c \in Members)
-  /\ msgs' = Append(msgs, [s |-> c, d |-> d])
+  /\ d # c /\ (d = "G" => c \in members)
+  /\ msgs' = Append(msgs, NewMsg(c, d))
   /\ ClientEffect(c, None, out)
-  /\ UNCHANGED <<outq, faults, hit>>
+  /\ UNCHANGED <<outq, faults, hit, members, nmem>>
 
 (* The server serves the oldest stanza c sent.  Targets: who a message / receipt    *)
 (* must be forwarded to.  tg: who it IS forwarded to (the design model takes the   *)
@@ -149,7 +156,7 @@ Process(c, tg, note) ==
                                 ELSE outq[a]
                           q2 == IF a \in tg /\ x.k \in {"msg", "rcpt"} THEN Append(q1, fwd) ELSE q1
                       IN IF a \in note THEN Append(q2, ack) ELSE q2]
-  /\ UNCHANGED <<nretry, msgs, emitted, shown, nshown, pend, asked, seen, open, faults, hit>>
+  /\ UNCHANGED <<nretry, members, nmem, msgs, emitted, shown, nshown, pend, asked, seen, open, faults, hit>>
 
 (* The server delivers the j-th stanza queued for c (j = 1: queue order).  Stanzas  *)
 (* that originate from one party reach a recipient in the order that party sent     *)
@@ -166,11 +173,19 @@ DeliverAt(c, j, fault, out) ==
         /\ faults' = IF fault = "" THEN faults ELSE faults + 1
         /\ hit' = IF fault = "" THEN hit ELSE hit \cup {<<c, x.i>>}
         /\ ClientEffect(c, dl, out)
-  /\ UNCHANGED msgs
+  /\ UNCHANGED <<msgs, members, nmem>>
 Deliver(c, fault, out) == DeliverAt(c, 1, fault, out)
 
 (* A party's process is restarted while none of its stanzas is in flight.          *)
 Restart(c) == Quiescent /\ UNCHANGED vars
+
+(* Group membership changes while nothing is in flight (the group's administrator    *)
+(* acts on the server; the clients are not told - yowsup keeps no member list, it    *)
+(* asks for the group's members when it first writes to the group and from then on   *)
+(* relies on a newcomer's retry receipt to learn that somebody lacks the sender key).*)
+Rest == <<nretry, msgs, inq, outq, emitted, shown, nshown, pend, asked, seen, open, faults, hit>>
+Join(a) == Quiescent /\ a \notin members /\ members' = members \cup {a} /\ nmem' = nmem + 1 /\ UNCHANGED Rest
+Leave(a) == Quiescent /\ a \in members /\ members' = members \ {a} /\ nmem' = nmem + 1 /\ UNCHANGED Rest
 
 -----------------------------------------------------------------------------
 (* Bounded design model: clients do anything that breaks no local rule.            *)
@@ -191,14 +206,15 @@ Outs(c, dl, ms) ==
 Legal(c, dl, ms) == {o \in Outs(c, dl, ms) : Labels(c, dl, o, ms) = {}}
 
 MSubmit == /\ Len(msgs) < MaxMsgs
-           /\ \E c \in Acc, d \in (Acc \cup (IF Members = {} THEN {} ELSE {"G"})) :
-                 \E o \in Legal(c, None, Append(msgs, [s |-> c, d |-> d])) : Submit(c, d, o)
+           /\ \E c \in Acc, d \in (Acc \cup (IF members = {} THEN {} ELSE {"G"})) :
+                 \E o \in Legal(c, None, Append(msgs, NewMsg(c, d))) : Submit(c, d, o)
 MProcess == \E c \in Acc : inq[c] # <<>> /\ Process(c, Targets(c), {})
 MDeliver == \E c \in Acc, f \in {"", "dup", "corrupt"}, j \in 1..MaxReorder :
               /\ j <= Len(outq[c])
               /\ LET x == outq[c][j] dl == IF f = "corrupt" THEN [x EXCEPT !.f = 1] ELSE x IN
                    \E o \in Legal(c, dl, msgs) : DeliverAt(c, j, f, o)
-MNext == MSubmit \/ MProcess \/ MDeliver
+MMember == nmem < MaxJoins /\ \E a \in Acc : Join(a) \/ Leave(a)
+MNext == MSubmit \/ MProcess \/ MDeliver \/ MMember
 MSpec == Init /\ [][MNext]_vars
 
 -----------------------------------------------------------------------------
